@@ -115,6 +115,10 @@ def factory(kind, spec):
         obj = E.make_loc(spec["blocks"], lst, plain)
         ops["other"] = E.make_loc(spec["other"], lst, plain)
         ops["far"] = E.make_loc([[0, 1]], lst, plain)  # the generator keeps position 0..3 free of blocks
+        # ANOTHER genome under the same name, of the same length (a haplotype, a corrected assembly): same id, other bases
+        R2 = R[::-1]
+        ops["other_genome"] = Parent(id=plain.id, sequence=Sequence(R2, Alphabet.NT_EXTENDED_GAPPED, id=plain.id,
+                                                                    type=plain.sequence.sequence_type), parent=plain.parent)
         return obj, ops
     if kind == "parent":
         from inscripta.biocantor.location.strand import Strand
@@ -240,6 +244,8 @@ def actions(kind):
             "has_overlap_other": lambda o, p: o.has_overlap(p["other"]),
             "gaps_op": lambda o, p: o.gaps_location(),
             "scan_windows_op": lambda o, p: list(o.scan_windows(2, 1, 0)),
+            # the location moved onto another genome of the same name and length reads THAT genome's bases
+            "reparent_extract": lambda o, p: o.reset_parent(p["other_genome"]).extract_sequence(),
         }
     elif kind == "parent":
         A = {
